@@ -996,8 +996,10 @@ HCPseek(accrec_t *access_rec, int32 offset, int origin)
     if (offset < 0)
         HGOTO_ERROR(DFE_RANGE, FAIL);
 
+    /* (the offset is absolute by now: a coder that hands the origin on, as the 'none' coder does,
+       must not apply it a second time) */
     info = (compinfo_t *)access_rec->special_info;
-    if ((ret_value = (*(info->minfo.model_funcs.seek))(access_rec, offset, origin)) == FAIL)
+    if ((ret_value = (*(info->minfo.model_funcs.seek))(access_rec, offset, DF_START)) == FAIL)
         HGOTO_ERROR(DFE_MODEL, FAIL);
 
     /* set the offset */
